@@ -120,6 +120,15 @@ func envSealRaw(x int, authKey, plain []byte, span int) []byte {
 	return append(pkt, envIGE(key, iv, plain, true)...)
 }
 
+// envSealWithMsgKey: the ciphertext is made under the key/IV that the given msg_key yields, whatever
+// that msg_key is — a key holder's forgery when mk is not the digest of the plaintext.
+func envSealWithMsgKey(x int, authKey, plain, mk []byte) []byte {
+	key, iv := envKeyIv(x, authKey, mk)
+	pkt := append([]byte{}, envSha1(authKey)[12:20]...)
+	pkt = append(pkt, mk...)
+	return append(pkt, envIGE(key, iv, plain, true)...)
+}
+
 // envOpen: the receiver's side of the description in direction x. strictPad: also insist on fewer
 // than 16 padding bytes (what a server asks of a client). Returns the message or why it is refused.
 func envOpen(x int, authKey, pkt []byte, strictPad bool) (envMsg, string) {
@@ -245,9 +254,6 @@ func (i envInformator) GetSessionID() int64  { return i.sid }
 func (i envInformator) GetSeqNo() int32      { return i.seq }
 func (i envInformator) GetServerSalt() int64 { return i.salt }
 func (i envInformator) GetAuthKey() []byte   { return i.key }
-
-// envQuiet runs f with os.Stdout untouched but swallows nothing; DeserializeUnencrypted prints a
-// debugging line on a length mismatch — vh's own output goes to files, so that is harmless.
 
 // ---- (3) one packet through the real transport.ReadMsg ------------------------------------------------
 
